@@ -34,6 +34,15 @@ func verifDir() string {
 	return "/verif"
 }
 
+// outDir: where evidence and replay files go (GOCV_OUT redirects them, e.g. for the mutant self-test;
+// the known-findings file is always read from the verification directory).
+func outDir() string {
+	if d := os.Getenv("GOCV_OUT"); d != "" {
+		return d
+	}
+	return verifDir()
+}
+
 func loadKnownFindings() ([]KnownFinding, error) {
 	b, err := os.ReadFile(filepath.Join(verifDir(), "known_findings.json"))
 	if err != nil {
@@ -147,9 +156,14 @@ func cmdCheck(args []string) int {
 	tExec := time.Now()
 	var all []*Obligation
 	regionFor := map[string][]KnownFinding{}
+	foreign := map[string]string{} // finding text -> property it is recorded under (when not the one being checked)
 	for _, kf := range kfs {
-		if kf.Property == id && kf.Status == "known" {
+		if kf.Status == "known" {
+			// a function can carry clauses of several properties; the recorded region applies whichever property is being checked
 			regionFor[kf.Obligation] = append(regionFor[kf.Obligation], kf)
+			if kf.Property != id {
+				foreign[kf.What] = kf.Property
+			}
 		}
 	}
 	knownRegions = regionFor
@@ -229,6 +243,10 @@ func cmdCheck(args []string) int {
 	vacuous := nonBounded == 0
 	rc := 0
 	for _, kh := range dedupe(knownHit) {
+		if p2, isForeign := foreign[kh]; isForeign {
+			fmt.Printf("note: obligation shared with %s has a recorded known finding (reported by the %s check): %s\n", p2, p2, clip(kh, 120))
+			continue
+		}
 		fmt.Printf("KNOWN-FINDING: property=%s %s\n", id, kh)
 	}
 	reported := map[string]bool{}
@@ -383,7 +401,7 @@ func reorderFlags(args []string) []string {
 var unsafeName = regexp.MustCompile(`[^A-Za-z0-9_.-]+`)
 
 func writeReplay(id, name string, content map[string]interface{}) string {
-	dir := filepath.Join(verifDir(), "replays", id)
+	dir := filepath.Join(outDir(), "replays", id)
 	os.MkdirAll(dir, 0o755)
 	fn := unsafeName.ReplaceAllString(name, "_")
 	if len(fn) > 120 {
@@ -396,7 +414,7 @@ func writeReplay(id, name string, content map[string]interface{}) string {
 }
 
 func writeEvidence(id string, ev map[string]interface{}) {
-	dir := filepath.Join(verifDir(), "evidence")
+	dir := filepath.Join(outDir(), "evidence")
 	os.MkdirAll(dir, 0o755)
 	b, _ := json.MarshalIndent(ev, "", " ")
 	os.WriteFile(filepath.Join(dir, id+".json"), b, 0o644)
